@@ -254,6 +254,7 @@ colnum!(
 //   Both can fail the k-th call (fault injection) with a distinguishable error value, clip to a
 //   configurable (possibly non-origin, possibly empty) bounding box and log every call.
 // ---------------------------------------------------------------------------------------------
+/// pixel map, keyed `(y, x)` so that iteration is row-major
 pub type PMap = BTreeMap<(i32, i32), u32>;
 
 #[derive(Clone, Debug, PartialEq, Eq)]
@@ -338,7 +339,7 @@ impl Rec {
     }
     fn set(&mut self, p: Point, c: u32) {
         if self.bbox.contains(p) {
-            self.map.insert((p.x, p.y), c);
+            self.map.insert((p.y, p.x), c);
         } else {
             self.outside += 1;
         }
@@ -362,7 +363,7 @@ impl Rec {
 }
 pub fn fmt_map(m: &PMap) -> String {
     let mut s = String::new();
-    for ((x, y), c) in m.iter() {
+    for ((y, x), c) in m.iter() {
         if !s.is_empty() {
             s.push(';');
         }
